@@ -59,7 +59,8 @@ func (h Header) ValidateBasic() error {
 	// Ensure that the block's difficulty is meaningful (may not be correct at this point)
 	number := h.Height.RevisionHeight
 	if number > 0 {
-		if h.ToEthHeader().Difficulty.Uint64() == 0 {
+		// (Sign, not Uint64: a difficulty whose low 64 bits are zero is not a zero difficulty)
+		if h.ToEthHeader().Difficulty.Sign() == 0 {
 			return sdkerrors.Wrap(ErrInvalidDifficulty, "header Difficulty")
 		}
 	}
